@@ -39,6 +39,18 @@ def _terminates(body: list[ast.stmt]) -> bool:
     return bool(body) and isinstance(body[-1], TERMINATORS)
 
 
+def _falls_through(body: list[ast.stmt]) -> bool:
+    """control can reach the end of the block (an if/else whose two branches both leave does not)"""
+    if not body:
+        return True
+    last = body[-1]
+    if isinstance(last, TERMINATORS):
+        return False
+    if isinstance(last, ast.If) and last.orelse:
+        return _falls_through(last.body) or _falls_through(last.orelse)
+    return True
+
+
 def _pure(e: ast.AST) -> bool:
     return not any(isinstance(n, (ast.Call, ast.NamedExpr, ast.Await, ast.Yield, ast.YieldFrom)) for n in ast.walk(e))
 
@@ -52,18 +64,26 @@ def _shape(e: ast.AST) -> str:
     return ast.dump(c)
 
 
+def _negatable(v: ast.expr) -> bool:
+    return (isinstance(v, ast.UnaryOp) and isinstance(v.op, ast.Not)) or (isinstance(v, ast.Compare) and len(v.ops) == 1 and type(v.ops[0]) in _NEG)
+
+
 def negate(test: ast.expr) -> ast.expr:
-    """an expression with the opposite truth value, negation pushed one level (exact for ==, is, in; never for orderings)"""
+    """an expression with the opposite truth value, negation pushed one level (exact for ==, is, in; never for orderings); De Morgan over
+    an and/or whose operands all take the negation cleanly"""
     if isinstance(test, ast.UnaryOp) and isinstance(test.op, ast.Not):
         return test.operand
     if isinstance(test, ast.Compare) and len(test.ops) == 1 and type(test.ops[0]) in _NEG:
         return ast.Compare(test.left, [_NEG[type(test.ops[0])]()], test.comparators)
+    if isinstance(test, ast.BoolOp) and all(_negatable(v) for v in test.values):
+        return ast.BoolOp(ast.Or() if isinstance(test.op, ast.And) else ast.And(), [negate(v) for v in test.values])
     return ast.UnaryOp(ast.Not(), test)
 
 
 def _is_negative(test: ast.expr) -> bool:
     return (isinstance(test, ast.UnaryOp) and isinstance(test.op, ast.Not)) or \
-        (isinstance(test, ast.Compare) and len(test.ops) == 1 and isinstance(test.ops[0], _NEGATIVE_OPS))
+        (isinstance(test, ast.Compare) and len(test.ops) == 1 and isinstance(test.ops[0], _NEGATIVE_OPS)) or \
+        (isinstance(test, ast.BoolOp) and isinstance(test.op, ast.Or) and all(_negatable(v) for v in test.values))  # the `and` form is the positive one
 
 
 def or_chain_compact(node: ast.BoolOp) -> ast.expr | None:
@@ -94,6 +114,16 @@ def or_chain_expand(node: ast.expr) -> ast.expr | None:
     if isinstance(node, ast.Call) and isinstance(node.func, ast.Name) and node.func.id == "isinstance" and len(node.args) == 2 and isinstance(node.args[1], ast.Tuple) \
             and len(node.args[1].elts) >= 2 and _pure(node.args[0]):
         return ast.BoolOp(ast.Or(), [ast.Call(ast.Name("isinstance", ast.Load()), [copy.deepcopy(node.args[0]), e], []) for e in node.args[1].elts])
+    return None
+
+
+def callee_params(node: ast.Call, sig: dict[str, list[str]]) -> tuple[str, list[str]] | None:
+    """(key, positional parameter names) of the callee when it is resolved by unique name: a package-level function / class, or a method
+    name on which every defining class agrees"""
+    if isinstance(node.func, ast.Name) and node.func.id in sig:
+        return node.func.id, sig[node.func.id]
+    if isinstance(node.func, ast.Attribute) and "." + node.func.attr in sig:
+        return "." + node.func.attr, sig["." + node.func.attr]
     return None
 
 
@@ -175,8 +205,9 @@ class _Simplify(ast.NodeTransformer):
 
     def visit_Call(self, node: ast.Call) -> ast.AST:
         self.generic_visit(node)
-        if isinstance(node.func, ast.Name) and node.func.id in self.sig and node.keywords and not any(isinstance(a, ast.Starred) for a in node.args):
-            params = self.sig[node.func.id]
+        cp = callee_params(node, self.sig)
+        if cp is not None and node.keywords and not any(isinstance(a, ast.Starred) for a in node.args):
+            params = cp[1]
             args, kws = list(node.args), list(node.keywords)
             while kws and kws[0].arg is not None and len(args) < len(params) and params[len(args)] == kws[0].arg:
                 args.append(kws.pop(0).value)
@@ -423,11 +454,39 @@ class _Orient(ast.NodeTransformer):
         return node
 
 
+def eliminate_param_copies(fn: ast.FunctionDef) -> int:
+    """`v = p` at the top level of the body, p a parameter that is not mentioned again afterwards and v a local not mentioned before: v is p
+    under another name (a parameter copied so that "the parameter is not reassigned"); v is renamed to p and the copy dropped"""
+    params = _params_of(fn)
+    done = 0
+    i = 0
+    while i < len(fn.body):
+        st = fn.body[i]
+        if isinstance(st, (ast.Assign, ast.AnnAssign)) and getattr(st, "value", None) is not None:
+            tgt = st.targets[0] if isinstance(st, ast.Assign) and len(st.targets) == 1 else (st.target if isinstance(st, ast.AnnAssign) else None)
+            if isinstance(tgt, ast.Name) and isinstance(st.value, ast.Name) and st.value.id in params and tgt.id not in params:
+                v, p_ = tgt.id, st.value.id
+                before = any(isinstance(n, ast.Name) and n.id == v for b in fn.body[:i] for n in ast.walk(b))
+                after_p = any(isinstance(n, ast.Name) and n.id == p_ for b in fn.body[i + 1:] for n in ast.walk(b))
+                nested = any(isinstance(n, (ast.FunctionDef, ast.Lambda, ast.ClassDef, ast.Global, ast.Nonlocal)) for n in ast.walk(fn) if n is not fn)
+                if not before and not after_p and not nested:
+                    for b in fn.body[i + 1:]:
+                        for n in ast.walk(b):
+                            if isinstance(n, ast.Name) and n.id == v:
+                                n.id = p_
+                    del fn.body[i]
+                    done += 1
+                    continue
+        i += 1
+    return done
+
+
 def canonical_function(fn: ast.FunctionDef, signatures: dict[str, list[str]]) -> ast.FunctionDef:
     f = copy.deepcopy(fn)
     # a parameter or local called like a package-level callable shadows it
     own = {a.arg for a in f.args.args + f.args.kwonlyargs + f.args.posonlyargs} | {n.id for n in ast.walk(f) if isinstance(n, ast.Name) and isinstance(n.ctx, ast.Store)}
     signatures = {k: v for k, v in signatures.items() if k not in own}
+    eliminate_param_copies(f)
     f = _Simplify(signatures).visit(f)
     f.body = _if_pass(f.body) or [ast.Pass()]
     _inline_temps(f)
@@ -457,7 +516,26 @@ def signatures_of(trees: dict[str, ast.Module]) -> dict[str, list[str]]:
                 init = [m for m in st.body if isinstance(m, ast.FunctionDef) and m.name == "__init__"]
                 ok = bool(init) and not init[0].args.vararg and not init[0].args.posonlyargs
                 defs.setdefault(st.name, []).append([a.arg for a in init[0].args.args[1:]] if ok else None)
-    return {k: v[0] for k, v in defs.items() if len(v) == 1 and v[0]}
+    out = {k: v[0] for k, v in defs.items() if len(v) == 1 and v[0]}
+    # methods, under the key ".name": every class of the package that defines a method of that name gives it the same positional parameters
+    meth: dict[str, list[list[str] | None]] = {}
+    for tree in trees.values():
+        for cls in [n for n in ast.walk(tree) if isinstance(n, ast.ClassDef)]:
+            for m in cls.body:
+                if isinstance(m, ast.FunctionDef) and not m.name.startswith("__"):
+                    ok = not m.args.vararg and not m.args.posonlyargs and not any(isinstance(d, ast.Name) and d.id in ("staticmethod", "classmethod", "property") for d in m.decorator_list)
+                    meth.setdefault(m.name, []).append([a.arg for a in m.args.args[1:]] if ok else None)
+    for k, v in meth.items():
+        if v and all(x is not None and x == v[0] for x in v) and v[0] and k not in _BUILTIN_METHOD_NAMES:
+            out["." + k] = v[0]  # type: ignore[assignment]
+    return out
+
+
+# method names that also exist on built-in containers / files / loggers: a receiver of unknown type may not be the package's class
+_BUILTIN_METHOD_NAMES = {"get", "pop", "append", "extend", "insert", "remove", "update", "index", "count", "copy", "clear", "items", "keys", "values", "read", "write",
+                         "seek", "close", "open", "format", "join", "split", "strip", "startswith", "endswith", "encode", "decode", "search", "match", "group", "sort",
+                         "add", "discard", "setdefault", "find", "replace", "lower", "upper", "debug", "info", "warning", "error", "exception", "critical", "log", "emit",
+                         "map", "next", "peek", "parse", "scan", "begin", "end"}
 
 
 # --------------------------------------------------------------------------- a changed function: undo the syntactic noise around the change
@@ -497,7 +575,22 @@ def toward_reference(fn: ast.FunctionDef, ref: ast.FunctionDef, signatures: dict
         ref_ifs["<ifexp-return>"] = [ast.If(ast.Constant(True), [], [])]
     ref_text = {ast.unparse(n) for n in ast.walk(ref) if isinstance(n, (ast.Compare, ast.AugAssign, ast.Assign))}
     ref_expr = {ast.unparse(n) for n in ast.walk(ref) if isinstance(n, (ast.BoolOp, ast.Compare, ast.Call))}
-    ref_kw = {(n.func.id, k.arg) for n in ast.walk(ref) if isinstance(n, ast.Call) and isinstance(n.func, ast.Name) for k in n.keywords} | (keep_kw or set())
+    ref_annotated = {ast.unparse(n.target) for n in ast.walk(ref) if isinstance(n, ast.AnnAssign)}
+    ref_tests: set[str] = set()
+    for n in ast.walk(ref):
+        if isinstance(n, (ast.If, ast.While, ast.IfExp)):
+            stack = [n.test]
+            while stack:
+                t_ = stack.pop()
+                ref_tests.add(ast.unparse(t_))
+                if isinstance(t_, ast.BoolOp):
+                    stack.extend(t_.values)
+                elif isinstance(t_, ast.UnaryOp) and isinstance(t_.op, ast.Not):
+                    stack.append(t_.operand)
+    ref_kw = {(n.func.id, k.arg) for n in ast.walk(ref) if isinstance(n, ast.Call) and isinstance(n.func, ast.Name) for k in n.keywords} | \
+        {("." + n.func.attr, k.arg) for n in ast.walk(ref) if isinstance(n, ast.Call) and isinstance(n.func, ast.Attribute) for k in n.keywords} | (keep_kw or set())
+    if eliminate_param_copies(fn):
+        notes.append("parameter copy")
     # -- renamed locals: a new name takes the reference name under which most of its statements read as reference statements
     mine, theirs = _locals_of(fn) - _params_of(fn), _locals_of(ref) - _params_of(ref)
     added, gone = sorted(mine - theirs), sorted(theirs - mine)
@@ -541,7 +634,7 @@ def toward_reference(fn: ast.FunctionDef, ref: ast.FunctionDef, signatures: dict
         if k:
             notes.append("hoisted temporaries")
     # -- if statements: the layout the reference has for the same test
-    fn.body = _shape_blocks(fn.body, ref_ifs, notes)
+    fn.body = _shape_blocks(fn.body, ref_ifs, notes, fn_top=True)
     # -- expressions
     class _E(ast.NodeTransformer):
         def visit_UnaryOp(self, node: ast.UnaryOp) -> ast.AST:
@@ -596,6 +689,13 @@ def toward_reference(fn: ast.FunctionDef, ref: ast.FunctionDef, signatures: dict
                     return cand
             return node
 
+        def visit_AnnAssign(self, node: ast.AnnAssign) -> ast.AST:
+            self.generic_visit(node)
+            if node.value is not None and ast.unparse(node.target) not in ref_annotated:
+                notes.append("annotation")
+                return ast.Assign([node.target], node.value)
+            return node
+
         def visit_AugAssign(self, node: ast.AugAssign) -> ast.AST:
             self.generic_visit(node)
             if isinstance(node.target, ast.Name) and isinstance(node.op, (ast.Add, ast.Sub)) and isinstance(node.value, ast.Constant) and type(node.value.value) is int:
@@ -612,10 +712,11 @@ def toward_reference(fn: ast.FunctionDef, ref: ast.FunctionDef, signatures: dict
                 if alt is not None and _u(alt) in ref_expr:
                     notes.append("membership -> or-chain")
                     return alt
-            if isinstance(node.func, ast.Name) and node.func.id in sig and node.keywords and not any(isinstance(a, ast.Starred) for a in node.args):
-                params = sig[node.func.id]
+            cp = callee_params(node, sig)
+            if cp is not None and node.keywords and not any(isinstance(a, ast.Starred) for a in node.args):
+                params = cp[1]
                 args, kws = list(node.args), list(node.keywords)
-                while kws and kws[0].arg is not None and len(args) < len(params) and params[len(args)] == kws[0].arg and (node.func.id, kws[0].arg) not in ref_kw:
+                while kws and kws[0].arg is not None and len(args) < len(params) and params[len(args)] == kws[0].arg and (cp[0], kws[0].arg) not in ref_kw:
                     args.append(kws.pop(0).value)
                     notes.append("keyword argument")
                 node.args, node.keywords = args, kws
@@ -623,11 +724,31 @@ def toward_reference(fn: ast.FunctionDef, ref: ast.FunctionDef, signatures: dict
 
     _E().visit(fn)
 
+    # -- truthiness of a sized object where the reference spells `len(X) > 0` (lists / bytes: the same test)
+    def as_len_test(e: ast.expr) -> ast.expr:
+        if isinstance(e, ast.BoolOp):
+            e.values = [as_len_test(v) for v in e.values]
+            return e
+        if isinstance(e, ast.UnaryOp) and isinstance(e.op, ast.Not):
+            e.operand = as_len_test(e.operand)
+            return e
+        if isinstance(e, (ast.Name, ast.Attribute)) and ast.unparse(e) not in ref_tests:
+            for cand in (f"len({ast.unparse(e)}) > 0", f"len({ast.unparse(e)}) != 0"):
+                if cand in ref_expr:
+                    notes.append("truthiness -> len() test")
+                    return ast.parse(cand, mode="eval").body
+        return e
+
+    for n in ast.walk(fn):
+        if isinstance(n, (ast.If, ast.While, ast.IfExp)):
+            n.test = as_len_test(n.test)
+
     ast.fix_missing_locations(fn)
     return notes
 
 
-def _shape_blocks(block: list[ast.stmt], ref_ifs: dict[str, list[ast.If]], notes: list[str], elif_pos: bool = False, loop_body: bool = False) -> list[ast.stmt]:
+def _shape_blocks(block: list[ast.stmt], ref_ifs: dict[str, list[ast.If]], notes: list[str], elif_pos: bool = False, loop_body: bool = False,
+                  fn_top: bool = False) -> list[ast.stmt]:
     """if statements get the layout the reference uses for the same test (unique match by test text): polarity, else vs guard clause"""
     # return A if c else B  ->  if c: return A ; return B      (unless the reference returns conditional expressions itself)
     if not ref_ifs.get("<ifexp-return>"):
@@ -664,6 +785,32 @@ def _shape_blocks(block: list[ast.stmt], ref_ifs: dict[str, list[ast.If]], notes
         if isinstance(st, ast.Try):
             for h in st.handlers:
                 h.body = _shape_blocks(h.body, ref_ifs, notes)
+        if isinstance(st, ast.If) and ast.unparse(st.test) not in ref_ifs:
+            # `X in (c1, .., cn)` arm where the reference tests `X == ci` one by one: the arm is split, X being ci in the i-th copy
+            t0 = st.test
+            if isinstance(t0, ast.Compare) and len(t0.ops) == 1 and isinstance(t0.ops[0], ast.In) and isinstance(t0.comparators[0], (ast.Tuple, ast.List, ast.Set)) \
+                    and len(t0.comparators[0].elts) >= 2 and all(isinstance(e, ast.Constant) for e in t0.comparators[0].elts) and _pure(t0.left) \
+                    and all(_u(ast.Compare(copy.deepcopy(t0.left), [ast.Eq()], [e])) in ref_ifs for e in t0.comparators[0].elts) \
+                    and not any(isinstance(x, ast.Name) and isinstance(x.ctx, ast.Store) and x.id in {y.id for y in ast.walk(t0.left) if isinstance(y, ast.Name)} for b in st.body for x in ast.walk(b)):
+                left_text = ast.unparse(t0.left)
+
+                class _Spec(ast.NodeTransformer):
+                    def __init__(self, const: ast.Constant) -> None:
+                        self.const = const
+
+                    def generic_visit(self, node: ast.AST) -> ast.AST:
+                        if isinstance(node, ast.expr) and not isinstance(node, ast.Constant) and ast.unparse(node) == left_text and isinstance(getattr(node, "ctx", ast.Load()), ast.Load):
+                            return copy.deepcopy(self.const)
+                        return super().generic_visit(node)
+
+                tail = st.orelse
+                for e in reversed(t0.comparators[0].elts):
+                    body_i = [_Spec(e).visit(copy.deepcopy(b)) for b in st.body]
+                    tail = [ast.If(ast.Compare(copy.deepcopy(t0.left), [ast.Eq()], [e]), body_i, tail)]
+                st = tail[0]  # type: ignore[assignment]
+                block = block[:i] + [st] + block[i + 1:]
+                notes.append("membership arm -> one arm per value")
+                ast.fix_missing_locations(st)
         if isinstance(st, ast.If):
             # if a: (if b: X)  <->  if a and b: X, whichever the reference has
             if not st.orelse and len(st.body) == 1 and isinstance(st.body[0], ast.If) and not st.body[0].orelse and ast.unparse(st.test) not in ref_ifs:
@@ -689,10 +836,13 @@ def _shape_blocks(block: list[ast.stmt], ref_ifs: dict[str, list[ast.If]], notes
                     st.test, st.body, st.orelse = negate(st.test), st.orelse, st.body
                     notes.append("if/else polarity")
                     t = tn
-                elif _terminates(st.body) and block[i + 1:] and _terminates(block[i + 1:]):
-                    # if <not c>: A(term); rest(term)   ==   if c: rest(term); A(term)
+                elif _terminates(st.body) and block[i + 1:] and (_terminates(block[i + 1:]) or fn_top):
+                    # if <not c>: A(term); rest(term)   ==   if c: rest(term); A(term)     (the end of the function body is a return)
                     a_body = st.body
-                    st.test, st.body = negate(st.test), _shape_blocks(block[i + 1:], ref_ifs, notes)
+                    rest_ = _shape_blocks(block[i + 1:], ref_ifs, notes)
+                    if _falls_through(rest_):
+                        rest_ = rest_ + [ast.Return(None)]
+                    st.test, st.body = negate(st.test), rest_
                     notes.append("guard polarity")
                     block = block[:i] + [st] + a_body
                     t = tn
